@@ -223,6 +223,97 @@ func genC18() string {
 		order = append(order, callName(call))
 	}
 	fmt.Fprintf(&b, "/-- the checks generateSignatureEnvelope runs on the plugin's answer, in source order -/\ndef c18EnvelopeChecks : List String := %s\n\n", leanStrList(order))
+	// findDuplicateKey: what each delimiter does to the scanner's stack (the token loop itself is outside
+	// the Go-to-Lean translator's subset: an unbounded read-until-error loop over a stateful decoder and
+	// updates through a pointer into the last slice element)
+	fdk := mustFunc(p, pf, "", "findDuplicateKey")
+	var delimSwitch *ast.SwitchStmt
+	ast.Inspect(fdk.Body, func(n ast.Node) bool {
+		if sw, ok := n.(*ast.SwitchStmt); ok && sw.Tag != nil && delimSwitch == nil {
+			delimSwitch = sw
+		}
+		return true
+	})
+	if delimSwitch == nil {
+		fail("%s: findDuplicateKey has no switch over the delimiter", pf)
+	}
+	norm := func(e ast.Expr) string { return strings.ReplaceAll(exprText(e), " ", "") }
+	var rows []string
+	for _, cl := range delimSwitch.Body.List {
+		cc := cl.(*ast.CaseClause)
+		var acts []string
+		for _, st := range cc.Body {
+			act := "?" + fmt.Sprintf("%T", st)
+			switch x := st.(type) {
+			case *ast.AssignStmt:
+				if len(x.Lhs) == 1 && len(x.Rhs) == 1 && exprText(x.Lhs[0]) == "stack" {
+					switch r := x.Rhs[0].(type) {
+					case *ast.CallExpr:
+						if callName(r) == "append" && len(r.Args) == 2 && exprText(r.Args[0]) == "stack" {
+							act = "?append"
+							if ue, ok := r.Args[1].(*ast.UnaryExpr); ok && ue.Op == token.AND {
+								if lit, ok := ue.X.(*ast.CompositeLit); ok && exprText(lit.Type) == "frame" {
+									hasKeys, expect := false, false
+									for _, el := range lit.Elts {
+										if kv, ok := el.(*ast.KeyValueExpr); ok {
+											switch exprText(kv.Key) {
+											case "keys":
+												_, isLit := kv.Value.(*ast.CompositeLit)
+												hasKeys = isLit
+											case "expectKey":
+												expect = exprText(kv.Value) == "true"
+											}
+										}
+									}
+									switch {
+									case hasKeys && expect:
+										act = "pushObject"
+									case !hasKeys && !expect && len(lit.Elts) == 0:
+										act = "pushArray"
+									}
+								}
+							}
+						}
+					case *ast.SliceExpr:
+						if exprText(r.X) == "stack" && r.Low == nil && r.High != nil && norm(r.High) == "len(stack)-1" {
+							act = "pop"
+						}
+					}
+				}
+			case *ast.IfStmt:
+				if x.Else == nil && x.Init == nil && len(x.Body.List) == 1 {
+					if as, ok := x.Body.List[0].(*ast.AssignStmt); ok && len(as.Lhs) == 1 && len(as.Rhs) == 1 &&
+						norm(as.Lhs[0]) == "stack[len(stack)-1].expectKey" && exprText(as.Rhs[0]) == "true" {
+						act = "?rearm:" + norm(x.Cond)
+						if c := norm(x.Cond); c == "len(stack)>0&&stack[len(stack)-1].keys!=nil" {
+							act = "rearm"
+						}
+					}
+				}
+			}
+			acts = append(acts, act)
+		}
+		labels := []string{"default"}
+		if cc.List != nil {
+			labels = nil
+			for _, l := range cc.List {
+				bl, ok := l.(*ast.BasicLit)
+				if !ok || bl.Kind != token.CHAR {
+					fail("%s: findDuplicateKey: delimiter case %s is not a character literal", pf, exprText(l))
+				}
+				ch, _, _, err := strconv.UnquoteChar(bl.Value[1:len(bl.Value)-1], '\'')
+				if err != nil {
+					fail("%s: findDuplicateKey: %v", pf, err)
+				}
+				labels = append(labels, string(ch))
+			}
+		}
+		for _, l := range labels {
+			rows = append(rows, "("+leanStr(l)+", "+leanStrList(acts)+")")
+		}
+	}
+	fmt.Fprintf(&b, "/-- findDuplicateKey: per case of the switch over the delimiter token, what is done to the stack\n(`pushObject`, `pushArray`, `pop`, `rearm` = the enclosing object expects a member name again) -/\ndef c18DupScannerDelims : List (String × List String) :=\n  [%s]\n\n", strings.Join(rows, ", "))
+
 	// areUnknownAttributesAdded
 	fd := mustFunc(p, pf, "", "areUnknownAttributesAdded")
 	var known []string
